@@ -13,5 +13,6 @@ INVARIANT MCJumpDestsOK
 INVARIANT MCMemBound
 INVARIANT MCOutputOnlyAtEnd
 INVARIANT MCStaticNoWrite
+INVARIANT MCScanAgrees
 INVARIANT StatusOK
 CHECK_DEADLOCK TRUE
